@@ -258,6 +258,20 @@ pub fn run(tier: Tier) -> RunOutcome {
     }
     settings.max_iter = [60, 200, 7][choose("mi", 3) as usize];
     settings.verbose = flag("verbose_setting");
+    // the fields gen_settings never varies (what mut_118 showed): every stored field has
+    // to come back, also those that do not change how this build solves
+    match choose("rest", 12) {
+        1 => settings.max_threads = 1,
+        2 => settings.max_threads = 2,
+        3 => settings.max_threads = 7,
+        4 => settings.tol_infeas_abs = 1e-7,
+        5 => settings.tol_ktratio = 1e-5,
+        6 => settings.reduced_tol_infeas_abs = 1e-4,
+        7 => settings.reduced_tol_infeas_rel = 1e-4,
+        8 => settings.reduced_tol_ktratio = 1e-3,
+        9 => settings.min_switch_step_length = 0.2,
+        _ => {}
+    }
     let bound = with_sim(|s| s.inf_model);
     if chance("infb", 1, 5) {
         crate::props::c20::plant_infinite_bounds(&mut prob, bound, false);
